@@ -243,7 +243,9 @@ class GaussianKDE(DensityEstimator):
         x = linspace(self.lwr_limit, self.upr_limit, N)
         p = self(x)
 
-        mu = simpson(p * x, x=x)
+        # integrate about the mode so that the error in the mean does not
+        # grow with the distance of the data from zero
+        mu = self.mode + simpson(p * (x - self.mode), x=x)
         dx = x - mu
         I = p * dx**2
         var = simpson(I, x=x)
